@@ -32,7 +32,7 @@ func LoadEngine() (*Engine, error) {
 	if len(errs) > 0 {
 		return nil, fmt.Errorf("package errors:\n%s", strings.Join(errs, "\n"))
 	}
-	prog, spkgs := ssautil.AllPackages(pkgs, ssa.GlobalDebug)
+	prog, spkgs := ssautil.AllPackages(pkgs, ssa.GlobalDebug|ssa.InstantiateGenerics)
 	prog.Build()
 	e := &Engine{prog: prog, pkgs: pkgs, spkgs: map[string]*ssa.Package{}, sym: NewSymTab(), cs: NewContractSet(), funcs: map[string]*ssa.Function{}, maxPaths: 6000}
 	if len(pkgs) > 0 {
